@@ -188,6 +188,33 @@ def rand_value(rng, t, env, size=4):
     raise AssertionError(nm)
 
 
+# ---------------- the same value in another Python container form ----------------
+def reform(rng, v, depth=0):
+    """The codecs accept any Collection for sequence/set/tuple types and any Mapping for mapping types: hand the same value over
+    as tuple / deque / bytes / bytearray instead of list, frozenset instead of set, OrderedDict / mappingproxy instead of dict.
+    Elements of sets and keys of mappings are left alone (they must stay hashable and equal)."""
+    import collections
+    import types
+    if type(v) is list:
+        items = [reform(rng, x, depth + 1) for x in v]
+        forms = ["list", "tuple", "deque"]
+        if all(type(x) is int and 0 <= x < 256 for x in v):
+            forms += ["bytes", "bytearray", "bytes"]
+        f = rng.choice(forms)
+        return (items if f == "list" else tuple(items) if f == "tuple" else collections.deque(items) if f == "deque"
+                else bytes(v) if f == "bytes" else bytearray(v))
+    if type(v) is tuple:
+        items = [reform(rng, x, depth + 1) for x in v]
+        return tuple(items) if rng.random() < 0.6 else items
+    if type(v) is set:
+        return frozenset(v) if rng.random() < 0.5 else v
+    if type(v) is dict:
+        d = {k: reform(rng, x, depth + 1) for k, x in v.items()}
+        f = rng.choice(["dict", "ordered", "proxy"])
+        return d if f == "dict" else collections.OrderedDict(d) if f == "ordered" else types.MappingProxyType(d)
+    return v
+
+
 # ---------------- Python value <-> sx ----------------
 def to_sx(v, env):
     g = env.g
